@@ -224,7 +224,7 @@ class Lifecycle(BaseEngine):
         plan = {'prop': prop, 'kind': kind, 'autoreset': rng.random() < 0.4,
                 'sleep_time': pick(rng, (1e-4, 1e-3, 1e-2, 0.5)), 'start_time': pick(rng, (0.0, 100.0, 1.7e9)),
                 'perms': [rng.randrange(3) for _ in range(4)], 'yield_ports': rng.random() < 0.3,
-                'consumer_mutates': rng.random() < 0.3}
+                'consumer_mutates': rng.random() < 0.3, 'bystander': rng.random() < 0.25}
         if kind == 'multi':
             n = rng.randint(1, 3)
             plan['subs'] = [{'kind': 'dev_io', 'dev': self._gen_dev(rng)} for _ in range(n)]
@@ -578,12 +578,27 @@ class Lifecycle(BaseEngine):
                 if len(d.sent) != n0 + 1 or not (d.sent[-1] == m) or d.sent[-1] is m:
                     raise Violation(f'send-not-delivered@{kind}', f'send({m!r}) gave a device {d.sent[n0:]!r}')
 
+        by = mports.EchoPort('bystander') if plan.get('bystander') else None
+        by_n = 0
         stop = False
         for op in plan['ops']:
             if stop or st['deleted']:
                 break
             k = op[0]
             stats['steps'] += 1
+            if by is not None:
+                # a second, unrelated port is used in between; it must behave as if it were alone
+                by_n += 1
+                bm = make_msg('note_on', 9, by_n % 128, by_n)
+                try:
+                    by.send(bm)
+                    back = by.poll()
+                    nothing = by.poll()
+                except Exception as e:
+                    raise Violation(f'bystander-raised@{kind}', f'an unrelated EchoPort used in between raised {e!r}')
+                if not (back == bm) or nothing is not None:
+                    raise Violation(f'bystander-disturbed@{kind}', f'an unrelated EchoPort was sent {bm!r} and handed out '
+                                                                   f'{back!r} then {nothing!r}')
             for d in devs:
                 d.hung_before_close = d.hung
             if k == 'advance':
@@ -737,6 +752,8 @@ class Lifecycle(BaseEngine):
         # teardown: close what is left so that __del__ never runs at a collector-chosen moment
         clock.horizon = float('inf')
         try:
+            if by is not None:
+                by.close()
             if port is not None:
                 port.close()
             for sp in subs:
